@@ -343,7 +343,10 @@ def check (c):
             mon ['feed-impedance'] = 1
             dev = max (abs (complex (a.impedance) - complex (b.impedance)) / abs (complex (a.impedance)) for a, b in zip (m.sources, mb.sources))
             # coefficients are written with six digits; resonant loads amplify that
-            allowed = 1e-4 * amp + 1e-6 * cond
+            # and a feed current much smaller than the largest current carries their error that much enlarged
+            from pmv.props import c15
+            amp = max (amp, c15.load_sensitivity (spec, m.f))
+            allowed = (1e-4 * amp + 1e-6 * cond) * max (1.0, observe.feed_amp (m) / 3)
             if dev > allowed:
                 key = 'feed-impedance'
                 msg = 'feed impedance %r, BASIC description gives %r' % (m.sources [0].impedance, mb.sources [0].impedance)
